@@ -560,7 +560,7 @@ of the LQR policy from `x` by exactly `λ_t(x)·(x'-x) + Σ ½ dτᵀ Q dτ`. -/
 theorem opt_identity (hsol : SolverOK sol) (A : Nat → Mat ℝ ns ns) (B : Nat → Mat ℝ ns nc) (c : Nat → Vec ℝ ns)
     (n : Nat) : ∀ (t : Nat),
     (∀ s, t ≤ s → s < t + n → CostOK (toM (P.Q s))) →
-    (∀ s, t ≤ s → s < t + n → A (s * dt) = A s ∧ B (s * dt) = B s) →
+    (∀ s, t ≤ s → s + 1 < t + n → A (s * dt) = A s ∧ B (s * dt) = B s) →
     (∀ s, t ≤ s → s + 1 < t + n → xbar (s+1) = (Sys.linear A B c).f s (xbar s) (ubar s)) →
     ValOK (bwFrom sol (Sys.linear A B c) P dt xbar ubar t n).1 ∧
     ∀ (x x' : Vec ℝ ns) (us' : List (Vec ℝ nc)), us'.length = n →
@@ -621,33 +621,39 @@ theorem opt_identity (hsol : SolverOK sol) (A : Nat → Mat ℝ ns ns) (B : Nat 
     set dx : Fin ns → ℝ := toFn x' - toFn x with hdx
     set du : Fin nc → ℝ := toFn u' - toFn u with hdu
     have hd : app (toFn x') (toFn u') - app (toFn x) (toFn u) = app dx du := app_sub _ _ _ _
-    have hFA : F = cat (toM (A t)) (toM (B t)) := by
-      rw [hF, Fmat, hS]
-      simp only [Sys.linear]
-      rw [(hlin t (le_refl _) (by omega)).1, (hlin t (le_refl _) (by omega)).2]
-    have hFd : F *ᵥ app dx du = toFn (S.f t x' u') - toFn (S.f t x u) := by
-      rw [hFA, cat_mulVec, vL_app, vR_app, hS, linear_f, linear_f, hdx, hdu, Matrix.mulVec_sub, Matrix.mulVec_sub]
-      abel
-    have hlamp : Vp r.1 *ᵥ (F *ᵥ δτ) + vp r.1 = lam xbar r.1 (t+1) (S.f t x u) := by
-      unfold lam
-      rcases hro : r.1 with _ | w0
-      · simp [Vp]
-      · have hn1 : 1 ≤ n := by
+    -- the pulled-back costate term; the terminal stage never reads A, B (so `hlin` is not needed there)
+    have e3 : G ⬝ᵥ app dx du = (Q *ᵥ app (toFn x) (toFn u) + toFn (P.p t)) ⬝ᵥ app dx du
+        + lam xbar r.1 (t+1) (S.f t x u) ⬝ᵥ (toFn (S.f t x' u') - toFn (S.f t x u)) := by
+      cases hro : r.1 with
+      | none =>
+        rw [hro] at hGeq
+        rw [hGeq]
+        simp [Vp, vp, lam]
+      | some w0 =>
+        rw [hro] at hGeq
+        have hn1 : 1 ≤ n := by
           rcases n with _ | n
           · rw [hr, bwFrom_zero] at hro; cases hro
           · omega
-        have hx1 := hnom t (le_refl _) (by omega)
-        congr 2
-        rw [hx1, hFA, hδτ, cat_mulVec, vL_app, vR_app, ← hδu, hδx, linear_f, linear_f, Matrix.mulVec_sub, Matrix.mulVec_sub]
-        abel
+        have hFA : F = cat (toM (A t)) (toM (B t)) := by
+          rw [hF, Fmat, hS]
+          simp only [Sys.linear]
+          rw [(hlin t (le_refl _) (by omega)).1, (hlin t (le_refl _) (by omega)).2]
+        have hFd : F *ᵥ app dx du = toFn (S.f t x' u') - toFn (S.f t x u) := by
+          rw [hFA, cat_mulVec, vL_app, vR_app, hS, linear_f, linear_f, hdx, hdu, Matrix.mulVec_sub, Matrix.mulVec_sub]
+          abel
+        have hlamp : Vp (some w0) *ᵥ (F *ᵥ δτ) + vp (some w0) = lam xbar (some w0) (t+1) (S.f t x u) := by
+          unfold lam
+          have hx1 := hnom t (le_refl _) (by omega)
+          congr 2
+          rw [hx1, hFA, hδτ, cat_mulVec, vL_app, vR_app, ← hδu, hδx, linear_f, linear_f, Matrix.mulVec_sub, Matrix.mulVec_sub]
+          abel
+        rw [hGeq, add_dotProduct, tr_dot, hFd, hlamp]
     -- scalar bookkeeping
     have e1 := stage_expand hQs (toFn (P.p t)) (app (toFn x) (toFn u)) (app (toFn x') (toFn u'))
     rw [hd] at e1
     have e2 : G ⬝ᵥ app dx du = lam xbar (some w) t x ⬝ᵥ dx := by
       rw [dot_split, hGR, hGL, vL_app, vR_app]; simp
-    have e3 : G ⬝ᵥ app dx du = (Q *ᵥ app (toFn x) (toFn u) + toFn (P.p t)) ⬝ᵥ app dx du
-        + lam xbar r.1 (t+1) (S.f t x u) ⬝ᵥ (toFn (S.f t x' u') - toFn (S.f t x u)) := by
-      rw [hGeq, add_dotProduct, tr_dot, hFd, hlamp]
     rw [stageCost_eq, stageCost_eq]
     linarith
 
@@ -709,32 +715,33 @@ theorem nth_cons_succ {n : Nat} (a : Vec ℝ n) (l : List (Vec ℝ n)) (j : Nat)
 theorem nth_cons_zero {n : Nat} (a : Vec ℝ n) (l : List (Vec ℝ n)) : nth (a :: l) 0 = a := by
   simp [nth]
 
-theorem rollFrom_length (clk n : Nat) (x : Vec ℝ ns) : (rollFrom S ubar clk n x).length = n := by
-  induction n generalizing clk x with
+theorem rollFrom_length (clk i n : Nat) (x : Vec ℝ ns) : (rollFrom S ubar clk i n x).length = n := by
+  induction n generalizing clk i x with
   | zero => rfl
   | succ n ih => simp [rollFrom, ih]
 
-theorem rollFrom_zero (clk n : Nat) (x : Vec ℝ ns) : nth (rollFrom S ubar clk (n+1) x) 0 = x := by
+theorem rollFrom_zero (clk i n : Nat) (x : Vec ℝ ns) : nth (rollFrom S ubar clk i (n+1) x) 0 = x := by
   simp [rollFrom, nth]
 
-/-- `x_traj[j+1] = system(x_traj[j], u_traj[j])` with the clock at `clk + j` -/
-theorem rollFrom_step (n : Nat) : ∀ (clk : Nat) (x : Vec ℝ ns) (j : Nat), j + 1 < n →
-    nth (rollFrom S ubar clk n x) (j+1) = S.f (clk + j) (nth (rollFrom S ubar clk n x) j) (ubar (clk + j)) := by
+/-- `x_traj[j+1] = system(x_traj[j], u_traj[j])` with the clock at `clk + j` and the nominal input read at the LOOP index -/
+theorem rollFrom_step (n : Nat) : ∀ (clk i : Nat) (x : Vec ℝ ns) (j : Nat), j + 1 < n →
+    nth (rollFrom S ubar clk i n x) (j+1) = S.f (clk + j) (nth (rollFrom S ubar clk i n x) j) (ubar (i + j)) := by
   induction n with
-  | zero => intro clk x j h; omega
+  | zero => intro clk i x j h; omega
   | succ n ih =>
-    intro clk x j h
+    intro clk i x j h
     cases j with
     | zero =>
       cases n with
       | zero => omega
       | succ n => simp [rollFrom, nth]
     | succ j =>
-      have := ih (clk+1) (S.f clk x (ubar clk)) j (by omega)
+      have := ih (clk+1) (i+1) (S.f clk x (ubar i)) j (by omega)
       simp only [rollFrom, nth_cons_succ] at this ⊢
       rw [this]
       have e : clk + 1 + j = clk + (j + 1) := by omega
-      rw [e]
+      have e2 : i + 1 + j = i + (j + 1) := by omega
+      rw [e, e2]
 
 end cost
 
@@ -872,6 +879,7 @@ theorem pd_isUnit_det {n : Nat} {M : Matrix (Fin n) (Fin n) ℝ} (h : IsPD M) : 
 noncomputable def invSolver (ns nc : Nat) : Solver ℝ ns nc where
   solveM := fun M Y => mat fun i j => ((toM M)⁻¹ * toM Y) i j
   solveV := fun M y => vec fun i => ((toM M)⁻¹ *ᵥ toFn y) i
+  accepts := fun _ => true
 
 theorem invSolver_ok (ns nc : Nat) : SolverOK (invSolver ns nc) := by
   intro M _ hpd
@@ -1281,5 +1289,128 @@ theorem fwFrom_drop (S : Sys ℝ ns nc) (P : Prob ℝ ns nc) (xbar : Nat → Vec
       rw [e]
 
 end reuse
+
+/-! ## Part 9 — auxiliary statements and statements that are TRUE BY CONSTRUCTION of the model
+
+Moved out of `Props/C14.lean` after the independent audit: they are correct but carry little evidence about the code.
+
+* `clock_independent`, `history_independent`, `failed_call_harmless`, `copies_independent`: the model's only state between
+  calls is the `Nat` clock, `resetClock _ = 0`, `Op.failed` is DEFINED as "changes only the clock"; the driver never executes
+  `lqrCall` / `runHistory`. That the real objects carry nothing else from call to call — `LQR.x_traj` / `LQR.u_traj`
+  (overwritten at lqr.py:316-323), `System.state` / `System.input`, `NLS._ref_*`, none of which exists in the model — is decided
+  by the harness' HISTORY stream (solves interleaved with clock writes, forward calls, other problems, failing calls, copies, in-place
+  updates on the same objects, each compared with the reference and the first solve), not by these statements.
+* `rollout_affine`, `quadratic_stationary_global`, `mpcInit_spec`, `mpc_is_lqr`: bookkeeping used by the property theorems. -/
+
+section byConstruction
+variable {ns nc : Nat}
+
+/-- the difference of two roll-outs of a linear time-varying system depends only on the differences of the
+starts and of the inputs (`dprop`: `d⁺ = A_t d + B_t du`), for any horizon and dimensions -/
+theorem rollout_affine (A : Nat → Mat ℝ ns ns) (B : Nat → Mat ℝ ns nc) (c : Nat → Vec ℝ ns) (P : Prob ℝ ns nc)
+    (us us' : List (Vec ℝ nc)) (t : Nat) (x x' : Vec ℝ ns) (hl : us'.length = us.length) :
+    List.zipWith (fun a b => toFn a - toFn b) (simulate (Sys.linear A B c) P t x' us').1 (simulate (Sys.linear A B c) P t x us).1
+      = dprop A B t (toFn x' - toFn x) (udiff us' us) :=
+  simulate_diff A B c P us us' t x x' hl
+
+
+theorem quadratic_stationary_global {n : Nat} (H : Matrix (Fin n) (Fin n) ℝ) (g u u' : Fin n → ℝ)
+    (hs : IsSym H) (hp : IsPSD H) (hst : H *ᵥ u + g = 0) :
+    (1:ℝ)/2 * (u ⬝ᵥ H *ᵥ u) + u ⬝ᵥ g ≤ (1:ℝ)/2 * (u' ⬝ᵥ H *ᵥ u') + u' ⬝ᵥ g := by
+  have e := stage_expand hs g u u'
+  rw [hst] at e
+  have := hp (u' - u)
+  simp only [zero_dotProduct] at e
+  linarith
+
+
+/-- whatever the clock when the solve is entered, the result is that of a fresh system and the clock is
+left at `T` (both passes are preceded by `system.reset()`) -/
+theorem clock_independent (sol : Solver ℝ ns nc) (S : Sys ℝ ns nc) (P : Prob ℝ ns nc) (dt : Nat) (x0 : Vec ℝ ns)
+    (ubar : Nat → Vec ℝ nc) (clk : Nat) :
+    lqrCall sol S P dt x0 ubar clk = (lqr sol S P dt x0 ubar, P.T) := by
+  simp [lqrCall, lqr, resetClock]
+
+
+/-- **any history**: solves interleaved with arbitrary clock writes and forward calls on one system object
+return what they would return on a fresh object, whatever the initial clock -/
+theorem history_independent (sol : Solver ℝ ns nc) (S : Sys ℝ ns nc) (ops : List (Op ℝ ns nc)) :
+    ∀ clk : Nat, (runHistory sol S ops clk).1 = freshSolves sol S ops := by
+  induction ops with
+  | nil => intro clk; rfl
+  | cons op ops ih =>
+    intro clk
+    cases op with
+    | solve P dt x0 ubar =>
+      simp only [runHistory, freshSolves, clock_independent]
+      rw [ih]
+    | setClock v => simp only [runHistory, freshSolves]; rw [ih]
+    | forward n => simp only [runHistory, freshSolves]; rw [ih]
+    | failed c => simp only [runHistory, freshSolves]; rw [ih]
+
+
+/-- **error paths are atomic for the property**: a call that raised and was caught (wherever it left the clock)
+changes no later result — the history with the failed call returns what the history without it returns -/
+theorem failed_call_harmless (sol : Solver ℝ ns nc) (S : Sys ℝ ns nc) (pre post : List (Op ℝ ns nc)) (c clk : Nat) :
+    (runHistory sol S (pre ++ .failed c :: post) clk).1 = (runHistory sol S (pre ++ post) clk).1 := by
+  rw [history_independent, history_independent]
+  induction pre with
+  | nil => rfl
+  | cons op pre ih => cases op <;> simp only [List.cons_append, freshSolves, ih]
+
+
+/-- **copies follow their own law**: an object and its copy (own clock each) used interleaved in any order —
+each returns, solve by solve, what it would return if the other did not exist -/
+theorem copies_independent (sol : Solver ℝ ns nc) (S : Sys ℝ ns nc) (ops : List (Bool × Op ℝ ns nc)) :
+    ∀ c1 c2 : Nat, runTwo sol S ops c1 c2
+      = (freshSolves sol S ((ops.filter fun o => o.1).map Prod.snd), freshSolves sol S ((ops.filter fun o => !o.1).map Prod.snd)) := by
+  induction ops with
+  | nil => intro c1 c2; rfl
+  | cons o rest ih =>
+    intro c1 c2
+    obtain ⟨b, op⟩ := o
+    cases b
+    · simp only [runTwo, ih, List.filter_cons, Bool.false_eq_true, if_false, Bool.not_false, if_true, List.map_cons]
+      have h := history_independent sol S [op] c2
+      rw [h]
+      cases op <;> simp [freshSolves]
+    · simp only [runTwo, ih, List.filter_cons, if_true, Bool.not_true, Bool.false_eq_true, if_false, List.map_cons]
+      have h := history_independent sol S [op] c1
+      rw [h]
+      cases op <;> simp [freshSolves]
+
+
+/-- the value returned by `MPC.forward` is one LQR solve around the best inputs of the loop -/
+theorem mpc_is_lqr (sol : Solver ℝ ns nc) (S : Sys ℝ ns nc) (P : Prob ℝ ns nc) (dt : Nat) (x0 : Vec ℝ ns)
+    (fuel : Nat) (st : Stepper ℝ) (uinit : Option (List (Vec ℝ nc))) :
+    (mpc sol S P dt x0 fuel st uinit).1
+      = lqr sol S P dt x0 (nomOf (mpcLoop sol S P dt x0 fuel st.reset uinit ⟨uinit, none⟩ 0).1.u) := rfl
+
+
+/-- `MPC.__init__`: with `stepper=None` the object holds `ReduceToBason(steps=10, patience=5, decreasing=1e-3, tol=1e-5)`
+with one step of its budget taken off; a given stepper keeps its parameters and loses one step -/
+theorem mpcInit_spec (st : Stepper ℝ) :
+    (mpcInit (none : Option (Stepper ℝ))).maxSteps = 9 ∧ (mpcInit (none : Option (Stepper ℝ))).patience = 5 ∧
+    (mpcInit (none : Option (Stepper ℝ))).decreasing = 1 / 1000 ∧ (mpcInit (none : Option (Stepper ℝ))).tol = 1 / 100000 ∧
+    (mpcInit (some st)).maxSteps = st.maxSteps - 1 ∧ (mpcInit (some st)).patience = st.patience ∧
+    (mpcInit (some st)).decreasing = st.decreasing ∧ (mpcInit (some st)).tol = st.tol := by
+  refine ⟨by simp [mpcInit, Stepper.default, Stepper.new], by simp [mpcInit, Stepper.default, Stepper.new], ?_, ?_, rfl, rfl, rfl, rfl⟩
+  · simp [mpcInit, Stepper.default, Stepper.new]
+  · simp [mpcInit, Stepper.default, Stepper.new]
+
+
+end byConstruction
+
+/-! ## Part 10 — the scope of `hlin`, and the error branches of `LQR.forward` -/
+
+section scope
+variable {ns nc : Nat}
+
+/-- Cholesky's acceptance contract: it does not raise on symmetric positive definite matrices -/
+def AcceptsOK (sol : Solver ℝ ns nc) : Prop := ∀ M : Mat ℝ nc nc, IsSym (toM M) → IsPD (toM M) → sol.accepts M = true
+
+theorem invSolver_accepts (ns nc : Nat) : AcceptsOK (invSolver ns nc) := fun _ _ _ => rfl
+
+end scope
 
 end PP.Lqr
